@@ -543,7 +543,7 @@ func (a Int) M__rshift__(other Object) (Object, error) {
 
 func (a Int) M__rrshift__(other Object) (Object, error) {
 	if b, ok := convertToInt(other); ok {
-		if b < 0 {
+		if a < 0 {
 			return nil, negativeShiftCount
 		}
 		// Can't overflow
